@@ -332,7 +332,7 @@ def _struct_eval(r, live, fresh, sig):
 def hist_fn(case):
     from mc import rthist
     r = core.R(case)
-    rthist.run_history(r, case['hist'], lambda: hist_build(case), 'structure/' + case['kind'], extra_eval=_struct_eval, as_numpy=bool(case.get('np')))
+    rthist.run_history(r, case['hist'], lambda: hist_build(case), 'structure/' + case['kind'], extra_eval=_struct_eval, as_numpy=bool(case.get('np')), entry=case.get('entry', 'model'))
     return r
 
 
@@ -358,4 +358,6 @@ def explore(ctx):
     ctx.bounds.update(histories=len(hcases), history_depth=3 if ctx.tier == 'thorough' else 2)
     # every single update once more with the value handed over as a numpy float64 scalar
     hcases += [dict(c_, np=True) for c_ in hcases if len(c_['hist']) == 1]
+    # ... and with the first evaluation after the update going through model_full_contrib / model_contrib
+    hcases += [dict(c_, entry=e_) for c_ in hcases if len(c_['hist']) == 1 and not c_.get('np') for e_ in ('full', 'contrib')]
     ctx.run_cases('hist_fn', hcases, phase='histories')
